@@ -142,6 +142,20 @@ BATCH = 100000   # harnesses per cargo-kani invocation.  One invocation: the dri
                  # shrink with batches of 48, and every invocation pays the metadata load again
 
 
+_QUAL = {}
+
+
+def qualified(name):
+    """module-qualified harness name (`c17_paths::k_leafname`): the module is the file of kani/src that defines it"""
+    if not _QUAL:
+        import glob
+        for f in glob.glob(os.path.join(ROOT, "kani", "src", "*.rs")):
+            mod = os.path.basename(f)[:-3]
+            for m in re.finditer(r"\b(k_[A-Za-z0-9_]+)\b", open(f).read()):
+                _QUAL.setdefault(m.group(1), mod)
+    return "%s::%s" % (_QUAL[name], name) if name in _QUAL else name
+
+
 def _run_locked(names, jobs, timeout):
     d, log = prepare()
     import signal
@@ -151,9 +165,11 @@ def _run_locked(names, jobs, timeout):
     rc = 0
     for b in range(0, max(len(names), 1), BATCH):
         batch = names[b:b + BATCH]
-        cmd = ["cargo", "kani"] + KANI_FLAGS + ["--output-format", "terse", "-j", str(jobs)]
+        # `--harness X` is a substring filter (k_leafname would also select k_leafname7, k_c18_arm64_x1 also x10..x19):
+        # pass module-qualified names with --exact so that a tier runs exactly the harnesses it lists
+        cmd = ["cargo", "kani"] + KANI_FLAGS + ["--output-format", "terse", "-j", str(jobs), "--exact"]
         for n in batch:
-            cmd += ["--harness", n]
+            cmd += ["--harness", qualified(n)]
         cmds.append(" ".join(cmd))
         left = timeout - (time.time() - t0)
         if left <= 0:
